@@ -148,7 +148,8 @@ def run(seed, tier, extra_cases=None, use_cache=True):
         else:
             table[k] = {"error": r.get("error") or "native failure"}
     for v in probe_versions:
-        CLASSES[v] = "modified" if ("%s|%s" % (FILES["f1"], v)) in maps else "notmodified"
+        ent = table.get(tx[v] + "\u0000" + FILES["f1"]) or {}
+        CLASSES[v] = "error" if "error" in ent else ("modified" if ("%s|%s" % (FILES["f1"], v)) in maps else "notmodified")
     # probe histories: arbitrary positions of the file are translated through the public stack-trace API (fake call
     # sites); the specification looks them up in the map of the version ITS state says is cached for the file
     def positions(key):
